@@ -14,6 +14,9 @@ from symx.mutants import MUTANTS  # noqa: E402
 
 want = set(a.upper() for a in sys.argv[1:])
 res = {}
+out_path = os.path.join(VERIF, "selftest_results.json")
+if want and os.path.exists(out_path):
+    res = json.load(open(out_path))  # partial run: keep the other entries
 for name, (_mod, _old, _new, props) in MUTANTS.items():
     for p in props:
         if want and p not in want:
@@ -23,6 +26,6 @@ for name, (_mod, _old, _new, props) in MUTANTS.items():
         first = [l for l in pr.stdout.splitlines() if l.startswith(("VIOLATION", "  job:"))][:2]
         res["%s/%s" % (name, p)] = {"exit": pr.returncode, "killed": pr.returncode == 1, "wall_s": round(time.time() - t, 1), "first": first}
         print("%-28s %-4s exit=%d %5.0fs %s" % (name, p, pr.returncode, time.time() - t, (first[1].strip()[:140] if len(first) > 1 else "")), flush=True)
-json.dump(res, open(os.path.join(VERIF, "selftest_results.json"), "w"), indent=1, sort_keys=True)
+json.dump(res, open(out_path, "w"), indent=1, sort_keys=True)
 k = sum(1 for v in res.values() if v["killed"])
 print("killed %d of %d (mutant, property) pairs" % (k, len(res)))
